@@ -1,6 +1,7 @@
 import TongoProofs.Lemmas.HashmapEncode
 import TongoProofs.Lemmas.HashmapPut
 import TongoProofs.Lemmas.HashmapSigned
+import TongoProofs.Lemmas.HashmapAug
 /-! # Property C05 — dictionaries (Hashmap / HashmapE) preserve their key→value mapping
 
 Model: `TongoModel/Hashmap.lean` (mirror of tlb/hashmap.go after the repairs recorded in known_findings.txt).
@@ -181,6 +182,27 @@ theorem decode_encode_signed (C : Codec V) (pay : V → List Bool × List Cell) 
   · intro kv hkv; exact hfit kv (by simp at hkv ⊢; tauto)
   · exact hdec
 
+/-- The property in one statement: fill a dictionary by `Put` (any `Compare`) from ANY ordering `ops` of distinct `n`-bit
+keys; Marshal succeeds, Unmarshal of the result lists exactly the inserted pairs in ascending key-bit order, and the
+listing is the same for every ordering (`sortKV ops` depends only on the set, see `encode_order_independent`). -/
+theorem build_encode_decode (C : Codec V) (pay : V → List Bool × List Cell) (n : Nat) (lt : Key → Key → Bool)
+    (ops : List (Key × V)) (hnd : (keysOf ops).Nodup) (hw : ∀ kv ∈ ops, kv.1.length = n)
+    (hfit : ∀ kv ∈ ops, Fits C pay n kv.2) (hdec : DecodesPayload C pay) :
+    ∃ c, marshalE C n (buildPut lt ops) = .ok c ∧ unmarshalE C n c = .ok (sortKV ops) ∧
+      SortedKV (sortKV ops) ∧ (sortKV ops).Perm ops := by
+  have hb := buildPut_perm lt ops hnd
+  have hndb : (keysOf (buildPut lt ops)).Nodup := (hb.map Prod.fst).symm.nodup hnd
+  have hwb : ∀ kv ∈ buildPut lt ops, kv.1.length = n := fun kv h => hw kv (hb.mem_iff.mp h)
+  have hfb : ∀ kv ∈ buildPut lt ops, Fits C pay n kv.2 := fun kv h => hfit kv (hb.mem_iff.mp h)
+  obtain ⟨c, h1, h2, h3⟩ := (hashmapE_roundtrip C pay n _ hndb hwb hfb hdec).2
+  have hs : sortKV (buildPut lt ops) = sortKV ops :=
+    sortKV_perm_eq n _ _ hb hndb (by
+      intro k hk
+      obtain ⟨x, hx, rfl⟩ := List.mem_map.mp hk
+      exact hwb x hx)
+  rw [hs] at h2 h3
+  exact ⟨c, h1, h2, h3, sortKV_perm ops⟩
+
 /-- lookups on a decoded dictionary agree with the mapping of the tree: `Get k` returns `v` exactly when `(k, v)` is an
 entry of the meaning (and `none` exactly when `k` is not a key) -/
 theorem get_spec (t : HTree V) (n : Nat) (hv : t.Valid n) (k : Key) :
@@ -220,6 +242,21 @@ theorem decode_then_put_encodes (C : Codec V) (pay : V → List Bool × List Cel
   intro k'
   rw [get_perm _ _ (sortKV_perm _) ((sortKV_perm _).map Prod.fst |>.symm.nodup hnd)]
   exact get_put lt t.meaning k v k'
+
+/-- `HashmapAugE` (decode side only; tongo has no encoder for it): every valid augmented dictionary, any label forms,
+decodes to the key→value mapping it represents; the extras (per node and the root extra `y0`) are consumed and dropped. -/
+theorem aug_decode_any_valid {Y : Type} (skipX : List Bool → List Cell → Outcome (List Bool × List Cell))
+    (C : Codec V) (pay : V → List Bool × List Cell) (xpay : Y → List Bool × List Cell)
+    (hdec : DecodesPayload C pay) (hskip : SkipsExtra skipX xpay) (n : Nat) (hn : n < 2 ^ 64)
+    (t : ATree V Y) (hv : t.Valid n) (y0 : Y) :
+    unmarshalAugE skipX C n (Cell.ordinary (true :: (xpay y0).1) (t.toCell pay xpay n :: (xpay y0).2)) = .ok t.meaning := by
+  have h0 : ¬ ((0 : Nat) = tyLibrary) := by decide
+  have h1 : ¬ ((0 : Nat) = tyPruned) := by decide
+  have hsk := hskip y0 [] []
+  simp only [List.append_nil] at hsk
+  simp only [unmarshalAugE, ty_ordinary, bits_ordinary, refs_ordinary, h0, h1, if_false, atree_toCell_ty]
+  rw [mapInnerAug_toCell skipX C pay xpay hdec hskip n hn t n [] (n + 1) hv (by simp) (Nat.lt_succ_self n)]
+  simp [hsk]
 
 /-! ## The defect repaired by `fix: Hashmap.MarshalTLB orders entries by their encoded key bits` (DESIGN §9 #10)
 
@@ -274,5 +311,16 @@ example : exampleTree.Valid 8 := by simp [exampleTree, HTree.Valid, Lbl.bits]
 /-- test on literals: the example tree decodes to its meaning (keys 0 and 3) -/
 example : unmarshalE u32Codec 8 (wrapE (exampleTree.toCell u32Pay 8)) = .ok [(i8 0, u32 10), (i8 3, u32 11)] := by
   decide
+
+/-- a 32-bit extra (e.g. `uint32`) skipped by dropping 32 bits satisfies `SkipsExtra` for 32-bit payloads -/
+example : ∀ (y : List Bool) (rb : List Bool) (rr : List Cell), y.length = 32 →
+    (fun (bits : List Bool) (refs : List Cell) =>
+      if bits.length < 32 then (Outcome.err "not enough bits" : Outcome (List Bool × List Cell)) else .ok (bits.drop 32, refs))
+      (y ++ rb) ([] ++ rr) = .ok (rb, rr) := by
+  intro y rb rr hy
+  have h1 : ¬ ((y ++ rb).length < 32) := by simp; omega
+  simp only [h1, if_false, List.nil_append]
+  rw [List.drop_append_of_le_length (by omega), List.drop_of_length_le (by omega)]
+  simp
 
 end Tongo.C05
